@@ -1,18 +1,10 @@
 // ---- stand-ins for dependency types that are only carried inside error variants -----------------
-mod reqwest { #[verifier::external_body] pub struct Error { _p: () } }
-mod bincode { #[verifier::external_body] pub struct Error { _p: () } }
-mod bzip2 { #[verifier::external_body] pub struct Error { _p: () } }
-mod nexrad_decode { pub mod result { #[verifier::external_body] pub struct Error { _p: () } } }
-mod nexrad_model { pub mod result { #[verifier::external_body] pub struct Error { _p: () } } }
 mod aws { pub(crate) use super::AWSError; }
 mod result { pub(crate) use super::{Error, Result}; }
 mod volume { pub(crate) use super::{File, Record}; }
 use AWSError::UnrecognizedChunkFormat;
 use Error::AWS;
 
-#[verifier::external_type_specification]
-#[verifier::external_body]
-pub struct ExIoError(std::io::Error);
 
 global layout Header is size == 24, align == 4;
 
